@@ -7,11 +7,6 @@ From BiomV Require Import Gen.JsonPrelude Gen.JsonGen Proofs.JsonDocProofs.
 Import ListNotations.
 Open Scope Z_scope.
 
-Example gen_ex_table :
-  gen_to_json ex_fmt ex_dumps ex_table (K "None") (K "x") (str_of_json (j_genby ex_table))
-              (Some (str_of_json (j_date ex_table)))
-  = ROk (to_json_text ex_fmt ex_dumps ex_table (K "None")).
-Proof. vm_compute. reflexivity. Qed.
 
 Lemma join_nil_concat : forall l : list str, join [] l = concat l.
 Proof.
@@ -297,4 +292,12 @@ Example gen_direct_ex_table :
   | ROk t => parse_json ex_scan 40 t = Some (to_json_tree_direct ex_table (K "None"))
   | RErr _ => False
   end.
+Proof. vm_compute. reflexivity. Qed.
+
+(* computed agreement of the string variant with the hand model on the witness table (kept after the
+   theorem so that a changed source is reported by the obligation of the theorem it breaks) *)
+Example gen_ex_table :
+  gen_to_json ex_fmt ex_dumps ex_table (K "None") (K "x") (str_of_json (j_genby ex_table))
+              (Some (str_of_json (j_date ex_table)))
+  = ROk (to_json_text ex_fmt ex_dumps ex_table (K "None")).
 Proof. vm_compute. reflexivity. Qed.
